@@ -14,7 +14,8 @@ from ..src import AnalysisError, loc, norm, own_nodes
 SOLVER = "tdgl.solver.solver"
 SCREEN = "tdgl.solver.screening"
 TECH = ("loop-nest summarisation of the numba/cupy kernels compared with eq. polyak (1st line) and with each other; "
-        "value numbering of the Polyak step; exit discipline of the screening loop on the CFG of TDGLSolver.update")
+        "value numbering of the Polyak step; exit discipline of the screening loop of TDGLSolver.update from the conditions that hold "
+        "at each exit (else-branches and guard clauses read alike); initial induced potential from the followed Runner arguments")
 
 SITE_COUNT = lambda ps: {f"{ps[0]}.shape[0]", f"{ps[1]}.shape[0]", f"{ps[2]}.shape[0]"}
 
